@@ -856,6 +856,53 @@ func (e *enc) specCall(env *specEnv, n *SCall) (tval, error) {
 		if !ok {
 			return tval{}, fmt.Errorf("ExtCall needs a literal function name")
 		}
+		if strings.HasPrefix(lit.V, "(") {
+			// a method: "(pkg/path.Type).Method" or "(*pkg/path.Type).Method"; the receiver is the first argument
+			cl := strings.Index(lit.V, ").")
+			if cl < 0 {
+				return tval{}, fmt.Errorf("ExtCall: %q is not (pkg/path.Type).Method", lit.V)
+			}
+			rt, mname := strings.TrimPrefix(lit.V[1:cl], "*"), lit.V[cl+2:]
+			d := strings.LastIndex(rt, ".")
+			if d < 0 {
+				return tval{}, fmt.Errorf("ExtCall: %q is not (pkg/path.Type).Method", lit.V)
+			}
+			pk := e.w.ByPath[rt[:d]]
+			if pk == nil || pk.Types == nil {
+				return tval{}, fmt.Errorf("ExtCall: package %s is not loaded", rt[:d])
+			}
+			tn, ok := pk.Types.Scope().Lookup(rt[d+1:]).(*types.TypeName)
+			if !ok {
+				return tval{}, fmt.Errorf("ExtCall: no type %s", rt)
+			}
+			var recvTy types.Type = tn.Type()
+			if strings.HasPrefix(lit.V, "(*") {
+				recvTy = types.NewPointer(recvTy)
+			}
+			obj, _, _ := types.LookupFieldOrMethod(recvTy, true, pk.Types, mname)
+			fobj, ok := obj.(*types.Func)
+			if !ok {
+				return tval{}, fmt.Errorf("ExtCall: no method %s", lit.V)
+			}
+			sig := fobj.Type().(*types.Signature)
+			if sig.Results().Len() != 1 || sig.Params().Len() != len(n.Args)-2 {
+				return tval{}, fmt.Errorf("ExtCall: %s needs the receiver, %d arguments and one result", lit.V, sig.Params().Len())
+			}
+			sorts, ts := []string{e.so.of(recvTy)}, []string{}
+			for j := 1; j < len(n.Args); j++ {
+				v, err := e.specX(env, n.Args[j])
+				if err != nil {
+					return tval{}, err
+				}
+				if j >= 2 {
+					sorts = append(sorts, e.so.of(sig.Params().At(j-2).Type()))
+				}
+				ts = append(ts, v.t)
+			}
+			rty := sig.Results().At(0).Type()
+			f := e.uf(fmt.Sprintf("f_%s_%d", clean(lit.V), 0), sorts, e.so.of(rty))
+			return e.mkT(fmt.Sprintf("(%s %s)", f, strings.Join(ts, " ")), rty), nil
+		}
 		i := strings.LastIndex(lit.V, ".")
 		if i < 0 {
 			return tval{}, fmt.Errorf("ExtCall: %q is not pkg/path.Func", lit.V)
